@@ -8,10 +8,14 @@ Three monitors, all on real executions of the working tree:
    every bucket must be bit-identical and ``numpy.random.get_state()`` after the call must equal the
    state before -- on normal return, on errors provoked by invalid arguments, and on a fault injected
    into the model's first NumPy draw made inside a seeded section;
+   (1b) every such function x every stochastic option of the recipe table is also run as the ONLY stochastic model
+   of an exposure pipeline, without a seed argument of its own, under a pipeline seed, from different prior states
+   (systematic sweep of "the pipeline seed alone drives the model", which the random pipelines below only sample);
 2. mode level: generated pipelines of the stochastic real models with a pipeline seed are run twice
    (different prior generator states, unrelated seeded/unseeded runs in between) as exposure, sequential
    observation, dask observation (synchronous + thread pools) and calibration (pygmo seed + pipeline
-   seed): results bit-identical, generator state equal before/after every run / compute;
+   seed, both drawn from the classes {0, upper bound, small, anywhere} of their range, seed 0 of either kind being
+   present in every run of the check): results bit-identical, generator state equal before/after every run / compute;
 3. leak recorder (M3): ``numpy.random.seed`` / ``numpy.random.set_state`` are replaced as attributes of
    the module by recording wrappers for the whole life of every worker: a call made by pyxel code
    outside the seeding helper that is not undone by the same code is a leak event.
@@ -48,9 +52,11 @@ TECHNIQUE = ("runtime monitoring: post-condition contract around every seed-taki
              "states, recording wrappers on numpy.random.seed / set_state with stack inspection")
 RULE = ("every function under pyxel.models with parameters (detector, seed) found by introspection x recipe variants x "
         "seeds (0 always included) x 2 prior generator states (one with a cached Gaussian); errors: invalid arguments, "
-        "unprepared buckets, a fault raised by the first numpy.random draw inside a seeded section; generated pipelines "
-        "of 2-9 stochastic real models (1-3 readouts, CCD/CMOS, optional per-model seeds) run as exposure, sequential "
-        "observation, dask observation (synchronous, threads 2..16) and calibration; non-trivial = the seeded output "
+        "unprepared buckets, a fault raised by the first numpy.random draw inside a seeded section; every (function, recipe "
+        "variant) as the only stochastic model, without its own seed, of an exposure with a pipeline seed (1-3 readouts, "
+        "seed classes 0 / small / 32-bit); generated pipelines of 2-9 stochastic real models (1-3 readouts, CCD/CMOS, optional per-model seeds) run as exposure, sequential "
+        "observation, dask observation (synchronous, threads 2..16) and calibration (optimiser seed and pipeline seed from "
+        "{0, upper bound, small, anywhere in range}; 0 for each of them is always present); non-trivial = the seeded output "
         "differs between two different seeds (models) / the pipeline holds >= 2 stochastic models (modes); distinct = "
         "distinct (function, variant, seed) and (mode, pipeline, seed, scheduler) signatures")
 ASSUMPTIONS = [
@@ -65,7 +71,8 @@ ASSUMPTIONS = [
 REQUIRED_COUNTERS = ["models_exercised", "model_repro_checks", "model_state_checks", "model_error_state_checks",
                      "model_fault_hits", "model_unseeded_checks", "exposure_pairs", "obs_seq_pairs",
                      "obs_dask_threads_pairs", "obs_dask_sync_pairs", "calibration_pairs", "mode_state_checks",
-                     "recorder_helper_seed_calls", "pulse_seeded_section_reached"]
+                     "recorder_helper_seed_calls", "pulse_seeded_section_reached", "embedded_pairs",
+                     "calibration_pygmo_seed_zero_pairs", "calibration_pipeline_seed_zero_pairs"]
 TIMEOUT = {"quick": 900, "thorough": 5400}
 LEVEL_TEXT = ("Exploration by runtime monitoring: every seed-taking model function is executed under a harness-side "
               "post-condition (same output from two prior generator states, generator state restored on return, on "
@@ -459,14 +466,22 @@ def recipes(tmp) -> dict:
                                       V(label="temporal+spatial", kind="cmos", buckets=["charge"],
                                         kwargs={"figure_of_merit": 0.5, "spatial_noise_factor": 0.1}),
                                       V(label="spatial-only", kind="ccd", buckets=[],
-                                        kwargs={"figure_of_merit": 1.0, "spatial_noise_factor": 0.2, "temporal_noise": False})],
+                                        kwargs={"figure_of_merit": 1.0, "spatial_noise_factor": 0.2, "temporal_noise": False}),
+                                      # moderate regime: sigma of the log-normal pattern ~0.6, every pixel gets a finite,
+                                      # continuous factor (the variants above saturate the pattern to {0, inf})
+                                      V(label="temporal+spatial-moderate", kind="cmos", buckets=[],
+                                        kwargs={"figure_of_merit": 0.01, "spatial_noise_factor": 0.01}),
+                                      V(label="spatial-only-moderate", kind="ccd", buckets=["charge"],
+                                        kwargs={"figure_of_merit": 0.01, "spatial_noise_factor": 0.01, "temporal_noise": False})],
                          "bad": [{"figure_of_merit": -1.0}, {"band_gap": 1.1}]},
         "simple_dark_current": {"variants": [V(label="rate", kind="ccd", buckets=[], kwargs={"dark_rate": 20.0}),
                                              V(label="rate-apd", kind="apd", temperature=80.0, buckets=["charge"], kwargs={"dark_rate": 3.0})],
                                 "bad": [{"dark_rate": -5.0}]},
         "dark_current_rule07": {"variants": [V(label="temporal", kind="cmos", temperature=140.0, buckets=[], kwargs={"cutoff_wavelength": 2.5}),
                                              V(label="temporal+spatial", kind="ccd", temperature=160.0, buckets=[],
-                                               kwargs={"cutoff_wavelength": 5.0, "spatial_noise_factor": 0.1})],
+                                               kwargs={"cutoff_wavelength": 5.0, "spatial_noise_factor": 0.1}),
+                                             V(label="temporal+spatial-moderate", kind="cmos", temperature=100.0, buckets=[],
+                                               kwargs={"cutoff_wavelength": 5.0, "spatial_noise_factor": 0.004})],
                                 "bad": [{"spatial_noise_factor": -0.5}, {"cutoff_wavelength": 0.5}]},
         "radiation_induced_dark_current": {"variants": [V(label="shot", kind="cmos", temperature=300.0, buckets=[],
                                                           kwargs={"depletion_volume": 64.0, "annealing_time": 0.1, "displacement_dose": 500.0, "shot_noise": True}),
@@ -860,7 +875,7 @@ def gen_pipeline(rng, kind, bits):
     if binom:
         stoch.append(("charge_generation", "conversion"))
     extras = [("dark_current", {"figure_of_merit": round(rng.uniform(0.001, 0.05), 4),
-                                **({"spatial_noise_factor": 0.1} if rng.random() < 0.5 else {})}),
+                                **({"spatial_noise_factor": rng.choice([0.002, 0.01, 0.1])} if rng.random() < 0.5 else {})}),
               ("simple_dark_current", {"dark_rate": round(rng.uniform(1.0, 200.0), 2)}),
               ("radiation_induced_dark_current", {"depletion_volume": 64.0, "annealing_time": 0.1,
                                                   "displacement_dose": float(rng.choice([200, 500, 900])), "shot_noise": rng.random() < 0.7})]
